@@ -37,15 +37,24 @@ func (s c06Step) msg(i int) p9p.Message {
 }
 
 func c06Msg(i, kind int) p9p.Message {
-	switch kind % 4 {
+	// the eight request kinds whose replies can carry the request's identity
+	switch kind % 8 {
 	case 0:
 		return p9p.MessageTread{Fid: p9p.Fid(i), Offset: uint64(i) << 40, Count: 9}
 	case 1:
 		return p9p.MessageTstat{Fid: p9p.Fid(i)}
 	case 2:
 		return p9p.MessageTwrite{Fid: p9p.Fid(i), Offset: 7, Data: []byte{byte(i), 2, 3}}
+	case 3:
+		return p9p.MessageTwalk{Fid: p9p.Fid(i), Newfid: 99, Wnames: []string{"a", "b"}}
+	case 4:
+		return p9p.MessageTopen{Fid: p9p.Fid(i), Mode: p9p.ORDWR}
+	case 5:
+		return p9p.MessageTcreate{Fid: p9p.Fid(i), Name: "n", Perm: 0644, Mode: p9p.OWRITE}
+	case 6:
+		return p9p.MessageTattach{Fid: p9p.Fid(i), Afid: p9p.NOFID, Uname: "u", Aname: "a"}
 	}
-	return p9p.MessageTwalk{Fid: p9p.Fid(i), Newfid: 99, Wnames: []string{"a", "b"}}
+	return p9p.MessageTauth{Afid: p9p.Fid(i), Uname: "u", Aname: "a"}
 }
 
 type c06State struct {
@@ -339,6 +348,17 @@ func c06Scenarios() []*explore.Scenario {
 	}
 	for _, p := range c06Plans(2) {
 		out = append(out, c06Scenario(fmt.Sprintf("k2[%s]sync", planName(p)), p, true, 0))
+	}
+	// the same two-request plans with the other request kinds (walk, open,
+	// create, attach, auth): a dispatch loop may treat a kind specially
+	for _, off := range []int{3, 5, 7} {
+		for _, p := range c06Plans(2) {
+			q := append([]c06Step{}, p...)
+			for i := range q {
+				q[i].Kind += off
+			}
+			out = append(out, c06Scenario(fmt.Sprintf("k2[%s]kinds+%d", planName(p), off), q, false, 0))
+		}
 	}
 	// a Tflush that itself reuses an outstanding tag is a duplicate like any other request
 	out = append(out,
